@@ -71,7 +71,7 @@ def run(ctx):
         e = env()
         bodies = mapping_bodies(crate)
         ctx.count("functions_analysed", len(bodies))
-        ctx.floor("bound-kinds" + tag, "Mapping/MappingIter methods with bodies", len(bodies), 18)
+        ctx.floor("bound-kinds" + tag, "Mapping/MappingIter methods with bodies", len(bodies), 14)
         accessors(ctx, crate, e, tag)
         bounds(ctx, crate, crs, bodies, e, tag)
         unchecked(ctx, crate, crs, bodies, e, tag)
@@ -186,7 +186,7 @@ def unchecked(ctx, crate, crs, bodies, e, tag):
             ctx.ob("unchecked-guard" + tag, b.key, "%s[%s]" % (t["f"]["name"], ik), ok, where_call(b, i),
                    "unchecked access is dominated by an in-range bound test" if ok else
                    "unchecked access with index kind %s is not dominated by a well-kinded bound test" % (ik,))
-    ctx.floor("unchecked-guard" + tag, "get_unchecked sites in safe Mapping methods", n, 6)
+    ctx.floor("unchecked-guard" + tag, "get_unchecked sites in safe Mapping methods", n, 4)
 
 
 def bookkeeping(ctx, crate, crs, e, tag):
